@@ -670,13 +670,9 @@ func c33SliceNum(n int) string {
 type c33OVar struct {
 	kind int // 0 unset, 1 scalar, 2 array
 	m    map[int]string
-	// isSet mirrors the interpreter's Variable.Set flag.  It is NOT part of the oracle (bash has no
-	// such thing); only the generator reads it, to apply the exclusion of finding
-	// C33-unset-after-elem-assign exactly.
-	isSet bool
 }
 
-func (v c33OVar) clone() c33OVar { return c33OVar{v.kind, maps33Clone(v.m), v.isSet} }
+func (v c33OVar) clone() c33OVar { return c33OVar{v.kind, maps33Clone(v.m)} }
 
 func (v c33OVar) max() int { return c33MapMax(v.m) }
 
@@ -712,18 +708,15 @@ func (v *c33OVar) apply(cm c33Cmd, other c33OVar) bool {
 	case "as", "lo":
 		v.m = map[int]string{}
 		v.kind = 2
-		v.isSet = true
 		v.lit(cm.es, 0)
 	case "ap":
 		v.kind = 2
-		v.isSet = true
 		v.lit(cm.es, v.max()+1)
 	case "cp", "ca":
 		if cm.kind == "cp" {
 			v.m = map[int]string{}
 		}
 		v.kind = 2
-		v.isSet = true
 		idx := v.max() + 1
 		for _, k := range c33Keys(other.m) {
 			v.m[idx] = other.m[k]
@@ -732,7 +725,6 @@ func (v *c33OVar) apply(cm c33Cmd, other c33OVar) bool {
 	case "ln":
 		v.m = map[int]string{}
 		v.kind = 0
-		v.isSet = false
 	case "se":
 		j := resolve(cm.i)
 		if j < 0 {
@@ -752,11 +744,9 @@ func (v *c33OVar) apply(cm c33Cmd, other c33OVar) bool {
 		if v.kind != 2 {
 			v.m = map[int]string{0: cm.v}
 			v.kind = 1
-			v.isSet = true
 		}
 	case "sa":
 		v.m[0] += cm.v
-		v.isSet = true
 		if v.kind == 0 {
 			v.kind = 1
 		}
@@ -772,7 +762,6 @@ func (v *c33OVar) apply(cm c33Cmd, other c33OVar) bool {
 			if cm.i == 0 {
 				v.m = map[int]string{}
 				v.kind = 0
-				v.isSet = false
 			} else {
 				return false
 			}
@@ -780,7 +769,6 @@ func (v *c33OVar) apply(cm c33Cmd, other c33OVar) bool {
 	case "ua":
 		v.m = map[int]string{}
 		v.kind = 0
-		v.isSet = false
 	}
 	return true
 }
@@ -933,8 +921,8 @@ func c33GenIndex(r *Rand, v c33OVar, allowNeg bool) int {
 }
 
 // c33GenElems builds the elements of an array literal applied to base `v` (nil map = fresh).
-// Exclusion (finding C33-literal-bad-subscript): an explicit negative subscript is generated only
-// when it resolves to a non-negative index at that point of the literal.
+// Now and then an explicit negative subscript is out of range: both shells report it, skip that
+// element and carry on with the counter unchanged (fixed finding C33-literal-bad-subscript).
 func c33GenElems(r *Rand, v c33OVar, fresh bool) []c33Elem {
 	sim := v.clone()
 	if fresh {
@@ -955,9 +943,10 @@ func c33GenElems(r *Rand, v c33OVar, fresh bool) []c33Elem {
 			if k < 0 {
 				k += sim.max() + 1
 			}
-			if k < 0 {
-				e.i = 0
-				k = 0
+			if k < 0 || r.Chance(6) {
+				e.i = -(sim.max() + 2) - r.Intn(3) // out of range: element skipped
+				es = append(es, e)
+				continue
 			}
 			idx = k
 		}
@@ -1009,9 +998,6 @@ func c33GenItems(r *Rand, v c33OVar) []string {
 // c33GenProg generates a command list, tracking bash's semantics with the oracle so that the
 // documented exclusions can be applied exactly (see props/C33.notes.md):
 //   * `x[i]+=v` only while x is unset                     (finding C33-elem-append)
-//   * `unset x` not while x only ever got values through `x[i]=v` (finding C33-unset-after-elem-assign)
-//   * no out-of-range negative subscript inside a literal  (finding C33-literal-bad-subscript)
-//   * `x+=v` on an array inside ( ) / $( ) is left out     (C27's finding: the write leaks)
 //   * out-of-range negative `x[i]=v` only at top level     (bash aborts the enclosing function /
 //     subshell on an assignment error; error handling, not array semantics)
 //   * reads only on arrays and unset variables, `${!x[@]}` only on arrays, `${x[-n]}` only in
@@ -1093,9 +1079,6 @@ func c33GenProg(r *Rand, thorough bool) ([]c33Cmd, []string) {
 				emit(c33Cmd{x: x, kind: "ss", v: r.Pick(c33ProgVals)})
 				tagset["op:set-string"] = true
 			case k < 66:
-				if v.kind == 2 && (inBlk == "sub" || inBlk == "cs") {
-					continue // C27's finding: `( a+=Q )` writes the parent's backing array
-				}
 				if v.kind == 0 && !r.Chance(20) {
 					continue
 				}
@@ -1116,9 +1099,6 @@ func c33GenProg(r *Rand, thorough bool) ([]c33Cmd, []string) {
 				emit(c33Cmd{x: x, kind: "ue", i: i})
 				tagset["op:unset-elem"] = true
 			case k < 88:
-				if v.kind != 0 && !v.isSet {
-					continue // finding C33-unset-after-elem-assign: `unset x` is a no-op in interp here
-				}
 				emit(c33Cmd{x: x, kind: "ua"})
 				tagset["op:unset-all"] = true
 			case k < 94:
